@@ -126,6 +126,10 @@ def run(run):
     run.floor('C18.b', 100)
     run.floor('C18.c', 100)
     run.floor('C18.d', 60)
+    # the byte storage behind every bit container really has ceil(N/8) bytes for every N up to 255 (type-level, exhaustive)
+    from gen import static_units
+    static_units.report(run, 'C18.e', static_units.capacity_unit('C18.e'))
+    run.floor('C18.e', 1)
     run.explanation = (
         'Allocation-freedom from the AST (every new-expression is the reserved placement form into storage/_items, no delete, '
         'externals limited to memset / placement operator new / type_index) cross-checked on the undefined symbols of the '
